@@ -149,12 +149,12 @@ func (k Keeper) AdjustPool(
 	k.SetRewardRules(ctx, pool.Id, pool.Rules)
 
 	// expiredHeight = [(srcEndHeight-beginPoint)*srcRewardPerBlock +appendReward]/RewardPerBlock + beginPoint
-	rewardsPerBlock := types.RewardRules(pool.Rules).RewardsPerBlock()
-	availableHeight := availableReward[0].Amount.Quo(rewardsPerBlock.AmountOf(availableReward[0].Denom)).Int64()
-	for _, c := range availableReward[1:] {
-		rpb := rewardsPerBlock.AmountOf(c.Denom)
-		inteval := c.Amount.Quo(rpb).Int64()
-		if availableHeight > inteval {
+	// every rule limits the height, also one whose available reward is zero
+	// (availableReward is a sdk.Coins and does not list it)
+	var availableHeight int64
+	for i, r := range pool.Rules {
+		inteval := availableReward.AmountOf(r.Reward).Quo(r.RewardPerBlock).Int64()
+		if i == 0 || availableHeight > inteval {
 			availableHeight = inteval
 		}
 	}
